@@ -10,6 +10,8 @@ pub fn run(args: &Args) -> i32 {
     rt.block_on(async {
         match name.as_str() {
             "rowid_scan" => rowid_scan(args).await,
+            "defer_hang" => defer_hang(args).await,
+            "defer_hang2" => defer_hang2(args).await,
             _ => println!("unknown probe"),
         }
     });
@@ -59,5 +61,109 @@ async fn rowid_scan(args: &Args) {
             seq,
             r.map(|b| b.iter().map(|x| x.num_rows()).sum::<usize>()).map_err(|e| e.to_string().chars().take(100).collect::<String>())
         );
+    }
+}
+
+async fn defer_hang(args: &Args) {
+    use lance::dataset::optimize::{compact_files, CompactionOptions};
+    use lance_index::DatasetIndexExt;
+    use std::time::Duration;
+    for (stable, with_index) in [(true, false), (true, true), (false, true), (false, false)] {
+        let mut rng = Rng::for_case(args.seed, 1);
+        let mut cfg = HistCfg::random(&mut rng);
+        cfg.stable_row_ids = stable;
+        cfg.storage = lance_encoding::version::LanceFileVersion::V2_0;
+        let mut h = Hist::mem(rng.clone(), cfg);
+        h.create_table("memory://t0").await;
+        for k in [OpKind::Append, OpKind::Append, OpKind::DeleteIds, OpKind::Append] {
+            h.step(k).await;
+        }
+        if with_index {
+            h.step(OpKind::CreateIndex).await;
+        }
+        let loc = h.live_locs()[0].clone();
+        let mut ds = h.lin[&loc].head.clone();
+        let nfr = ds.get_fragments().len();
+        let r = compact_files(&mut ds, CompactionOptions { target_rows_per_fragment: 1000, defer_index_remap: true, ..Default::default() }, None).await;
+        println!("stable={stable} index={with_index} fragments {nfr} compact -> {:?} version {}", r.map(|m| m.fragments_removed), ds.manifest().version);
+        macro_rules! t {
+            ($name:expr, $fut:expr) => {
+                match tokio::time::timeout(Duration::from_secs(10), $fut).await {
+                    Ok(r) => println!("   {} -> {}", $name, r),
+                    Err(_) => println!("   {} -> HANGS (10 s)", $name),
+                }
+            };
+        }
+        t!("load_indices", async { format!("{:?}", ds.load_indices().await.map(|i| i.iter().map(|x| (x.name.clone(), x.fragment_bitmap.as_ref().map(|b| b.iter().collect::<Vec<_>>()))).collect::<Vec<_>>())) });
+        t!("count_rows", async { format!("{:?}", ds.count_rows(None).await) });
+        t!("scan", async {
+            match ds.scan().try_into_stream().await {
+                Ok(s) => format!("{:?}", s.try_collect::<Vec<arrow_array::RecordBatch>>().await.map(|b| b.iter().map(|x| x.num_rows()).sum::<usize>())),
+                Err(e) => e.to_string(),
+            }
+        });
+        t!("scan_rowid_ordered", async {
+            let mut sc = ds.scan();
+            sc.with_row_id().scan_in_order(true);
+            match sc.try_into_stream().await {
+                Ok(s) => format!("{:?}", s.try_collect::<Vec<arrow_array::RecordBatch>>().await.map(|b| b.iter().map(|x| x.num_rows()).sum::<usize>())),
+                Err(e) => e.to_string(),
+            }
+        });
+        t!("validate", async { format!("{:?}", ds.validate().await) });
+        t!("delete", async { format!("{:?}", ds.delete("id = 0").await) });
+        t!("second compact(defer)", async { format!("{:?}", compact_files(&mut ds, CompactionOptions { target_rows_per_fragment: 1000, defer_index_remap: true, ..Default::default() }, None).await.map(|m| m.fragments_removed)) });
+    }
+}
+
+async fn defer_hang2(args: &Args) {
+    use lance::dataset::optimize::{compact_files, CompactionOptions};
+    use lance_index::scalar::{BuiltinIndexType, ScalarIndexParams};
+    use lance_index::{DatasetIndexExt, IndexType};
+    use std::time::Duration;
+    for (stable, bitmap, warm) in [(true, false, true), (true, true, true), (false, false, true), (false, true, true), (true, true, false), (false, true, false)] {
+        let mut rng = Rng::for_case(args.seed, 1);
+        let mut cfg = HistCfg::random(&mut rng);
+        cfg.stable_row_ids = stable;
+        cfg.storage = lance_encoding::version::LanceFileVersion::V2_0;
+        let mut h = Hist::mem(rng.clone(), cfg);
+        h.create_table("memory://t0").await;
+        for k in [OpKind::Append, OpKind::Append, OpKind::DeleteIds, OpKind::Append] {
+            h.step(k).await;
+        }
+        let loc = h.live_locs()[0].clone();
+        let mut ds = h.lin[&loc].head.clone();
+        let (ity, params) = if bitmap {
+            (IndexType::Bitmap, ScalarIndexParams::for_builtin(BuiltinIndexType::Bitmap))
+        } else {
+            (IndexType::BTree, ScalarIndexParams::for_builtin(BuiltinIndexType::BTree))
+        };
+        ds.create_index(&["v"], ity, Some("v_idx".into()), &params, true).await.unwrap();
+        async fn q(ds: &lance::Dataset, p: &str) -> String {
+            let mut sc = ds.scan();
+            sc.filter(p).unwrap();
+            match tokio::time::timeout(Duration::from_secs(10), crate::walker::guard(async {
+                match sc.try_into_stream().await {
+                    Ok(s) => Ok::<String, String>(format!("{:?}", s.try_collect::<Vec<arrow_array::RecordBatch>>().await.map(|b| b.iter().map(|x| x.num_rows()).sum::<usize>()))),
+                    Err(e) => Ok(e.to_string()),
+                }
+            }))
+            .await
+            .map(|r| r.unwrap_or_else(|e| e))
+            {
+                Ok(r) => r,
+                Err(_) => "HANGS (10 s)".into(),
+            }
+        }
+        println!("stable={stable} bitmap={bitmap} warm_cache_before_compaction={warm}");
+        if warm {
+            println!("   before: v IS NOT NULL -> {}", q(&ds, "v IS NOT NULL").await);
+        }
+        let r = compact_files(&mut ds, CompactionOptions { target_rows_per_fragment: 1000, defer_index_remap: true, ..Default::default() }, None).await;
+        println!("   compact(defer) -> {:?}", r.map(|m| m.fragments_removed));
+        println!("   after (same session): v IS NOT NULL -> {}", q(&ds, "v IS NOT NULL").await);
+        println!("   after (same session): v = 3 -> {}", q(&ds, "v = 3").await);
+        let fresh = h.open_at(&loc, None, true).await.unwrap();
+        println!("   after (fresh session): v IS NOT NULL -> {}", q(&fresh, "v IS NOT NULL").await);
     }
 }
